@@ -135,7 +135,7 @@ func init() {
 		Technique: "marker planting: every string-valued position of rich configuration trees (file, dashboard integration, dashboard source) is replaced in turn by hostile strings; each variant runs decode → ValidateFix → Migrate → task loading → steps with reference lookups, notifications and a reorg deletion (and the real dashboard handlers); every statement text the fake Postgres receives (simple Query and Parse) is searched for the marker; chain data carries SQL metacharacters and its own marker",
 		Rule: "base configurations: 2 sources (url + urls[]), 4 file integrations (log with user unique/index lists and notifications; log with nested tuple components carrying filters and filter_refs, block-field filters and filter_refs; tx on two sources; trace sharing a table) plus a complete dashboard integration of the rich shape and a dashboard source. " +
 			"The JSON tree is walked generically; positions are grouped by path class (array indexes dropped, nested components collapsed); the control variants of one path class run in one case (which judges the vacuity guard of the class), the hostile variants are spread evenly over the cases. For the two control strings all linked occurrences of a name are renamed together (integration↔filter_ref.integration, source↔sources[].name, table↔filter_ref.table, column↔inputs/block/notification/unique/index/filter_ref.column); hostile strings are planted at one position only (a source definition is planted together with the references to it, otherwise the source is never used). " +
-			"signature = (lifecycle, path class, string, outcome); a lifecycle is non-trivial when it was rejected or ran steps.",
+			"signature = (lifecycle, path class, string, outcome); a lifecycle is non-trivial when it was rejected or ran steps. The base also runs both lifecycles with statement_cache_capacity=0 in pg_url (a pooler deployment).",
 		Assumptions: []string{
 			"a violation is a hostile marker found in statement TEXT; parameters and COPY data are exempt (they are not text of a statement)",
 			"table.index[][] entries may carry a direction: a planted value of the form '<identifier><spaces>asc|desc' in that position is allowed in SQL text; anything else there (text after the direction, other separators) is a violation",
